@@ -12,7 +12,7 @@ open St4sd.Repeat
 private def it0 : Iter := { gap := [], s0 := [], s1 := [], s2 := [], s3 := [], s4 := [], out := .ok }
 
 def cfgOld : Cfg :=
-  { retries := 3, dieAfter := false, noProd := false, alwaysNew := true, preOutput := false,
+  { retries := 3, dieAfter := false, prods := [⟨0, true, false⟩], pre := [],
     guardNone := false, killOnSuicidePoll := false }
 
 /-- engine.py 1890 before the repair: the task generator raises on every launch after the producers
@@ -20,22 +20,22 @@ finished (8 polls): `my_process.returncode` on `None`, the action dies before th
 used up, the cancel event is never set — although `repeatRetries + 1 = 4`. -/
 theorem old_launch_raises_never_stops :
     let s := (runScript cfgOld (init cfgOld)
-      ([{ it0 with s0 := [.out] }, { it0 with gap := [.fin], out := .raised }] ++
+      ([{ it0 with s0 := [.out 0] }, { it0 with gap := [.fin], out := .raised }] ++
         List.replicate 7 { it0 with out := .raised })).1.getLast?.getD (init cfgOld)
     s.cancel = false ∧ s.retries = 3 ∧ s.pollsFin = 8 ∧ s.books = 0 ∧ s.execLog.length = 9 := by decide
 
-def cfgOldDie : Cfg := { cfgOld with alwaysNew := false, dieAfter := true, guardNone := true }
+def cfgOldDie : Cfg := { cfgOld with prods := [⟨0, true, true⟩], dieAfter := true, guardNone := true }
 
 /-- before the repair: the kill-delay timer fires between two polls after one launch: `suicide()` only
 signals the finished process, every later poll is a no-op, the engine never stops. -/
 theorem old_kill_delay_between_polls_never_stops :
     let s := (runScript cfgOldDie (init cfgOldDie)
-      ([{ it0 with s0 := [.out] }, { it0 with gap := [.fin] }, { it0 with gap := [.die] }] ++
+      ([{ it0 with s0 := [.out 0] }, { it0 with gap := [.fin] }, { it0 with gap := [.die] }] ++
         List.replicate 6 it0)).1.getLast?.getD (init cfgOldDie)
     s.suicide = true ∧ s.cancel = false ∧ alive s = true ∧ s.pollsFin = 8 ∧ s.pc = .idle := by decide
 
 def cfgZero : Cfg :=
-  { retries := 0, dieAfter := false, noProd := false, alwaysNew := false, preOutput := false,
+  { retries := 0, dieAfter := false, prods := [⟨0, true, true⟩], pre := [],
     guardNone := true, killOnSuicidePoll := true }
 
 /-- `repeatRetries: 0`: new output and the notification land between the output check and the
@@ -43,11 +43,11 @@ producers-done sample of a poll: that poll does not launch, finds no retries lef
 began before the final output appeared. -/
 theorem zero_retries_race_misses_final_output :
     let s := (runScript cfgZero (init cfgZero)
-      [{ it0 with s0 := [.out] }, { it0 with s1 := [.out, .fin] }, it0]).1.getLast?.getD (init cfgZero)
+      [{ it0 with s0 := [.out 0] }, { it0 with s1 := [.out 0, .fin] }, it0]).1.getLast?.getD (init cfgZero)
     s.cause = some .retries ∧ s.consume = true ∧ s.hasOutput = true ∧ s.pc = .stopped ∧
     s.execLog.all (fun e => decide (e.launch < s.lastOutput)) = true ∧ s.execLog.length = 1 := by decide
 
-def cfgPre : Cfg := { cfgZero with retries := 3, preOutput := true }
+def cfgPre : Cfg := { cfgZero with retries := 3, pre := [0] }
 
 /-- producer output exists before `run()` and none appears afterwards; the notification arrives before the
 first poll: four polls find no *new* output, the retries are used up before the 20 s override can fire, and
@@ -57,5 +57,15 @@ theorem output_before_run_never_looked_at :
       ([{ it0 with gap := [.fin] }] ++ List.replicate 4 it0)).1.getLast?.getD (init cfgPre)
     s.cause = some .retries ∧ s.consume = true ∧ s.hasOutput = true ∧ s.pc = .stopped ∧
     s.execLog = [] := by decide
+
+/-- two same-stage producers: the output of producer 4 (listed first) predates `run()`, producer 9 (listed
+last) never writes anything and both finish: although there is producer output the engine is never able to
+consume (the `never was able to consume` exemption of the property), launches nothing and stops when its
+retries are used up. -/
+theorem two_producers_one_silent_never_consumes :
+    let cfg := { cfgZero with retries := 1, prods := [⟨4, true, true⟩, ⟨9, true, true⟩], pre := [4] }
+    let s := (runScript cfg (init cfg) ([{ it0 with gap := [.fin] }] ++ List.replicate 3 it0)).1.getLast?.getD (init cfg)
+    s.cause = some .retries ∧ s.consume = false ∧ s.hasOutput = true ∧ s.pc = .stopped ∧ s.execLog = [] := by
+  decide
 
 end St4sd.C13.Witness
